@@ -4,9 +4,13 @@
  * src/fiber_mutex.c.
  * Locations (coq/MChan.v): object 0 = channel->lock (300 counter, 301/302
  * waiter list head/tail; stub node 1, fiber t's node 2+t; node n: data 98+2n,
- * next 99+2n); 515 = high; 519 = low; 503 = channel->waiters; 501+4i =
- * buffer[i]; 502+4t = fiber t's scratch (link of the waiter list); 200+t =
- * fiber t's state.  params: dmax, power_of_2_size.
+ * next 99+2n); 515 = high; 519 = low; 503 = channel->send_waiters; 523 =
+ * channel->recv_waiters; 501+4i = buffer[i]; 502+4t = fiber t's scratch (link
+ * of a waiter list); 200+t = fiber t's state.  params: dmax, power_of_2_size.
+ * The list heads are the pointer-sized fields between power_of_2_mod and
+ * buffer; they are registered by position (first 503, second 523) so that this
+ * harness also builds against the original one-list header (one head, 503):
+ * the stored F-C11 witnesses then fail here instead of breaking the build.
  * Ops: (1, v) send message v (v > 0)   ret = 0
  *      (2,_) receive                    ret = message */
 #include "harness.h"
@@ -53,7 +57,11 @@ static void h_run_case(hcase_t* c) {
   rt_reg((void*)&ch->lock.waiters.tail, 8, 302, 8);
   rt_reg((void*)&ch->high, 8, 515, 8);
   rt_reg((void*)&ch->low, 8, 519, 8);
-  rt_reg((void*)&ch->waiters, 8, 503, 8);
+  {
+    char* first = (char*)&ch->power_of_2_mod + sizeof ch->power_of_2_mod;
+    int nheads = (int)(((char*)ch->buffer - first) / (long)sizeof(void*));
+    for (int j = 0; j < nheads && j < 2; j++) rt_reg(first + 8 * j, 8, 503 + 20 * j, 8);
+  }
   rt_reg(ch->buffer, sizeof(void*) << p2, 501, 2);
   rt_reg(nodes, sizeof nodes, 100, 8);
   rt_name(nodes, sizeof nodes, 1, sizeof nodes[0]);
